@@ -85,9 +85,13 @@ int SUNLinSolFree(SUNLinearSolver S) {
 int SUNLinSolSetup(SUNLinearSolver, SUNMatrix) { return 0; }
 int SUNLinSolSolve(SUNLinearSolver, SUNMatrix, N_Vector, N_Vector, realtype) { return 0; }
 
+// Like CVODE, the mock keeps its OWN copy of the solution (the Nordsieck array zn[0]): CVodeInit and
+// CVodeReInit copy y0 into it, CVode advances it and writes it to yout.  What the caller puts into
+// the vector between a (re)initialisation and the next CVode call is overwritten, not integrated.
 struct MockCVMem {
     realtype tcur;
     int inited;
+    std::vector<realtype> zn;
 };
 
 void *CVodeCreate(int, SUNContext) {
@@ -104,12 +108,13 @@ void *CVodeCreate(int, SUNContext) {
 }
 int CVodeSetErrFile(void *, FILE *) { return setup_result(SETUP_ERRFILE); }
 int CVodeSetMaxNumSteps(void *, long) { return setup_result(SETUP_MAXSTEPS); }
-int CVodeInit(void *mem, CVRhsFn, realtype t0, N_Vector) {
+int CVodeInit(void *mem, CVRhsFn, realtype t0, N_Vector y0) {
     int r = setup_result(SETUP_INIT);
     if (r < 0) return r;
     MockCVMem *m = (MockCVMem *)mem;
     m->tcur = t0;
     m->inited = 1;
+    m->zn.assign(y0 && y0->data ? y0->data : NULL, y0 && y0->data ? y0->data + y0->n : NULL);
     return r;
 }
 int CVodeSStolerances(void *, realtype, realtype) { return setup_result(SETUP_TOL); }
@@ -117,7 +122,7 @@ int CVodeSetLinearSolver(void *, SUNLinearSolver, SUNMatrix) { return setup_resu
 int CVodeSetJacFn(void *, CVLsJacFn) { return setup_result(SETUP_JAC); }
 int CVodeSetUserData(void *, void *) { return setup_result(SETUP_USERDATA); }
 
-int CVodeReInit(void *mem, realtype t0, N_Vector) {
+int CVodeReInit(void *mem, realtype t0, N_Vector y0) {
     g_mock.n_reinit += 1;
     g_mock.level = g_mock.n_reinit;
     g_mock.substep = 0;
@@ -134,6 +139,7 @@ int CVodeReInit(void *mem, realtype t0, N_Vector) {
     MockCVMem *m = (MockCVMem *)mem;
     m->tcur = t0;
     m->inited = 1;
+    m->zn.assign(y0 && y0->data ? y0->data : NULL, y0 && y0->data ? y0->data + y0->n : NULL);
     return flag;
 }
 
@@ -178,7 +184,11 @@ int CVode(void *mem, realtype tout, N_Vector y, realtype *tret, int) {
         g_mock.fail_events.push_back(FailEvent{g_mock.level, g_mock.substep, flag});
     }
     realtype adv = tnew - m->tcur;
-    for (sunindextype i = 0; i < y->n; i++) y->data[i] += adv;
+    if ((sunindextype)m->zn.size() != y->n) m->zn.assign(y->data, y->data + y->n);  // (vector resized: take what is there)
+    for (sunindextype i = 0; i < y->n; i++) {
+        m->zn[(size_t)i] += adv;
+        y->data[i] = m->zn[(size_t)i];
+    }
     g_mock.integrated += adv;
     m->tcur = tnew;
     *tret = tnew;
